@@ -55,6 +55,15 @@ pub fn read_cases() -> Vec<Value> {
     v
 }
 
+/// panics raised inside the code under test (source files of the tree's crates) on threads other than the driver's own: counted by
+/// the process-wide panic hook (main.rs).  A panic that a worker of the service catches is still a panic of the service.
+pub static LIB_PANICS: std::sync::atomic::AtomicUsize = std::sync::atomic::AtomicUsize::new(0);
+pub static LIB_PANIC_FIRST: std::sync::Mutex<String> = std::sync::Mutex::new(String::new());
+
+pub fn lib_panics() -> (usize, String) {
+    (LIB_PANICS.load(std::sync::atomic::Ordering::SeqCst), LIB_PANIC_FIRST.lock().unwrap_or_else(|e| e.into_inner()).clone())
+}
+
 pub fn emit(v: &Value) {
     let out = std::io::stdout();
     let mut l = out.lock();
